@@ -142,6 +142,15 @@ impl<'a> Runner<'a> {
         if self.in_pm || self.out.flush { self.out.oracle.flush().unwrap(); }
     }
 
+    /// random histories of the expiring tree end with the public, consuming `into_ordered_vec` (the tie uses the
+    /// non-consuming hook so that histories can go on; the wrapper itself is checked here, by the C07 / C19 oracles)
+    pub fn finish_key(&mut self) {
+        if self.coll == "key" && !self.dead && !self.in_pm && self.emit && !self.ops.is_empty() {
+            let t = self.refm.last_t.max(0);
+            self.step(&Op::new("consume", &[t]), None);
+        }
+    }
+
     pub fn end(&mut self) {
         let ops: Vec<String> = self.ops.iter().map(|o| o.text()).collect();
         writeln!(self.out.hist, "H{} {} {} {} :: {}", self.hid, self.coll, self.variant, self.cap, ops.join(" ; ")).unwrap();
@@ -163,7 +172,7 @@ impl<'a> Runner<'a> {
             self.pm_left -= 1;
         }
         *self.out.op_counts.entry(format!("{}.{}", self.coll, op.name)).or_insert(0) += 1;
-        let emit_tie = self.emit && !self.in_pm;
+        let emit_tie = self.emit && !self.in_pm && op.name != "consume";
         let pre_state = if emit_tie { Some(if self.raw { self.real.raw().ok_or(String::from("no raw state")) } else { self.real.state() }) } else { None };
         let pre_entries = self.real.entries().unwrap_or_default();
         self.ops.push(op.clone());
@@ -187,7 +196,7 @@ impl<'a> Runner<'a> {
                 // no result was produced: the property that governs this operation's result is violated too
                 let mut props: Vec<&str> = vec!["C10"];
                 match (self.coll.as_str(), op.name.as_str()) {
-                    ("key", "export") => { props.push("C07"); props.push("C19"); }
+                    ("key", "export") | ("key", "consume") => { props.push("C07"); props.push("C19"); }
                     ("key", "get") => props.push("C06"),
                     ("key", _) => props.push("C01"),
                     ("map", "fil") | ("map", "filby") | ("set", "fil") | ("set", "filby") | (_, "validx") | (_, "setidx") | (_, "delidx") if !self.is_list => props.push("C08"),
@@ -277,7 +286,7 @@ impl<'a> Runner<'a> {
                 if o == "none" { "none".into() } else { es.iter().find(|e| e.0.to_string() == o).map_or("dangling".into(), |e| format!("key{}", e.1)) }
             };
             (d(out, &post), d(&tout, &tpost))
-        } else if op.name == "export" {
+        } else if op.name == "export" || op.name == "consume" {
             // capacity of the result is not part of the observable result
             (out.split(" cap=").next().unwrap().to_string(), tout.split(" cap=").next().unwrap().to_string())
         } else { (out.to_string(), tout) };
@@ -478,7 +487,7 @@ impl<'a> Runner<'a> {
             }
         }
         let t_opt: Option<i64> = if self.expiring {
-            match op.name.as_str() { "insert" => Some(a[3]), "fl" | "fle" | "fleby" | "get" | "export" => Some(a[0]), _ => None }
+            match op.name.as_str() { "insert" => Some(a[3]), "fl" | "fle" | "fleby" | "get" | "export" | "consume" => Some(a[0]), _ => None }
         } else { None };
         // ---- update reference and check outputs
         match op.name.as_str() {
@@ -554,7 +563,7 @@ impl<'a> Runner<'a> {
                 let e = e.map(|v| v.to_string()).unwrap_or("none".into());
                 if e != out { self.fail(if self.is_list { &["C13"] } else if prop == "C01" { &["C01"] } else { &["C06"] }, &format!("`{}` at time {}", op.text(), t), &e, out); }
             }
-            "export" => {
+            "export" | "consume" => {
                 let t = a[0];
                 self.refm.last_t = t;
                 self.out.eval("C07");
@@ -568,6 +577,8 @@ impl<'a> Runner<'a> {
                     if cap > 2 * n + 8 { self.fail(&["C19"], &format!("export of {} stored entries", n), &format!("capacity <= {}", 2 * n + 8), &cap.to_string()); }
                 }
                 self.refm.purge(t);
+                // the consumed tree is gone: a new one has taken its place
+                if op.name == "consume" { self.refm.m.clear(); self.handles.clear(); }
             }
             _ => {}
         }
